@@ -82,6 +82,96 @@ def showPad (r : Nat × UInt8) : String := toString r.1 ++ " " ++ toString r.2.t
 
 def setAt (l : Bytes) (i : Nat) (v : UInt8) : Bytes := l.take i ++ (match l.drop i with | [] => [] | _ :: t => v :: t)
 
+
+def showErrK : ErrK → String
+  | .io .eof => "eof"
+  | .io .unexpectedEOF => "ueof"
+  | .localAlert a => "local." ++ toString a
+  | .remoteAlert a => "remote." ++ toString a
+  | .header none => "hdr.-"
+  | .header (some a) => "hdr." ++ toString a
+  | .tooManyIgnored => "ignored"
+  | .pendingInput => "pending"
+
+def parseNext (s : String) (dec : Bool) : Option (Option (Cipher St × St)) :=
+  if s == "-" then some none
+  else match parseCipher s dec with
+    | some (c, st, _) => some (some (c, st))
+    | none => none
+
+/-- the calls of `readx`: `0`/`1` = drain c.input, then readRecordOrCCS(false/true); `p` = readRecordOrCCS(false)
+    without draining -/
+def runCalls : List Char → RState St → List String → Option Nat → (List String × RState St × Option Nat)
+  | [], s, acc, al => (acc.reverse, s, al)
+  | ch :: rest, s, acc, al =>
+    let s := if ch == 'p' then s else s.drained
+    match readRecordOrCCS s (ch == '1') with
+    | none => (("panic" :: acc).reverse, s, al)
+    | some (s', o) =>
+      let tok := match o with
+        | .data d => "data:" ++ toHex d
+        | .hand => "hand:" ++ toHex s'.core.c.hand
+        | .ccs => "ccs"
+        | .err e => "err:" ++ showErrK e
+      let al' := match o, s.core.inErr with
+        | .err e, none => (match e.alertSent with | some a => some a | none => al)
+        | _, _ => al
+      runCalls rest s' (tok :: acc) al'
+
+def showLens (recs : List Bytes) : String :=
+  let lens := recs.map (fun rec => toString (rec.length - 5))
+  if lens.isEmpty then "-" else ",".intercalate lens
+
+structure WSt where
+  c : Conn St
+  next : Option (Cipher St × St)
+  rand : Bytes
+  outErr : Bool
+  wire : Bytes
+
+/-- one op of `writex`: `r<typ>:<bytes>` = writeRecordLocked, `w:<bytes>` = Conn.Write -/
+def runWOp (beast : Bool) (w : WSt) (op : String) : Option (String × WSt) :=
+  match op.splitOn ":" with
+  | [k, d] =>
+    match parseBytes d with
+    | none => none
+    | some data =>
+      if k == "w" then
+        if w.outErr then some ("err:0", w)
+        else match connWrite w.c beast data w.rand with
+          | .ok (n, w1, w2) =>
+            let recs := (match w1 with | some x => x.records | none => []) ++ w2.records
+            some ("ok:" ++ toString n ++ ":" ++ showLens recs,
+              { w with c := w2.conn, rand := w2.rand, wire := w.wire ++ recs.flatten })
+          | .err => some ("err", w)
+          | .panic => some ("panic", w)
+      else match (String.ofList (k.toList.drop 1)).toNat? with
+        | none => none
+        | some typ =>
+          match writeRecordLockedN w.c w.next (UInt8.ofNat typ) data w.rand with
+          | .ok (.plain x) =>
+            some ("ok:" ++ toString x.n ++ ":" ++ showLens x.records,
+              { w with c := x.conn, rand := x.rand, wire := w.wire ++ x.records.flatten })
+          | .ok (.switched x) =>
+            some ("ok:" ++ toString x.n ++ ":" ++ showLens x.records,
+              { w with c := x.conn, next := none, rand := x.rand, wire := w.wire ++ x.records.flatten })
+          | .ok (.ccsFailed x al) =>
+            match al with
+            | .ok y => some ("ccserr:" ++ toString x.n ++ ":" ++ showLens (x.records ++ y.records),
+                { w with c := y.conn, rand := y.rand, outErr := true, wire := w.wire ++ x.records.flatten ++ y.records.flatten })
+            | _ => some ("ccserr:" ++ toString x.n ++ ":" ++ showLens x.records,
+                { w with c := x.conn, rand := x.rand, outErr := true, wire := w.wire ++ x.records.flatten })
+          | .err => some ("err", w)
+          | .panic => some ("panic", w)
+  | _ => none
+
+def runWOps (beast : Bool) : List String → WSt → List String → Option (List String × WSt)
+  | [], w, acc => some (acc.reverse, w)
+  | op :: rest, w, acc =>
+    match runWOp beast w op with
+    | none => none
+    | some (tok, w') => if tok == "panic" || tok == "err" then some ((tok :: acc).reverse, w') else runWOps beast rest w' (tok :: acc)
+
 def handle (args : List String) : String :=
   match args with
   | ["pad", p] =>
@@ -151,6 +241,33 @@ def handle (args : List String) : String :=
       | .err rc => "err " ++ toString rc
       | .panic => "panic"
     | _, _ => "bad-arg"
+  | "readx" :: vers :: hv :: hsc :: cipher :: seq :: next :: hand :: _eofLast :: calls :: chunks :: _ =>
+    match mkHalf vers cipher seq true, parseNext next true, parseBytes hand, (chunks.splitOn ",").mapM parseBytes with
+    | some (hc, _), some nx, some hd, some cs =>
+      let c : Conn St := { vers := hc.version, haveVers := hv == "1", handshakeComplete := hsc == "1",
+                           dynamicRecordSizingDisabled := false, buffering := false, bytesSent := 0,
+                           packetsSent := 0, retryCount := 0, hc := hc, hand := hd }
+      let s : RState St := { core := { c := c, next := nx, inErr := none, input := [] }, raw := [], chunks := cs }
+      match runCalls calls.toList s [] none with
+      | (toks, s', al) =>
+        if toks.contains "panic" then "panic" else
+        " ".intercalate toks ++ " seq=" ++ toHex s'.core.c.hc.seq ++ " rc=" ++ toString s'.core.c.retryCount ++
+          " raw=" ++ toString s'.raw.length ++ " alert=" ++ (match al with | some a => toString a | none => "-")
+    | _, _, _, _ => "bad-arg"
+  | ["writex", vers, cipher, seq, next, beast, dyn, ops, rand] =>
+    match mkHalf vers cipher seq false, parseNext next false, parseBytes rand with
+    | some (hc, _), some nx, some r =>
+      let c : Conn St := { vers := hc.version, haveVers := true, handshakeComplete := true,
+                           dynamicRecordSizingDisabled := dyn == "1", buffering := false, bytesSent := 0,
+                           packetsSent := 0, retryCount := 0, hc := hc, hand := [] }
+      match runWOps (beast == "1") (ops.splitOn ",") ⟨c, nx, r, false, []⟩ [] with
+      | some (toks, w) =>
+        " ".intercalate toks ++ " wire=" ++ toString w.wire.length ++ " " ++ toString (cksum w.wire).toNat ++ " " ++
+          (if w.wire.length ≤ 1024 then toHex w.wire else "*") ++ " seq=" ++ toHex w.c.hc.seq ++
+          " next=" ++ (match w.next with | some _ => "1" | none => "0") ++ " sent=" ++ toString w.c.bytesSent ++
+          " pkts=" ++ toString w.c.packetsSent
+      | none => "bad-arg"
+    | _, _, _ => "bad-arg"
   | _ => "bad-op"
 
 end ZV.C25
